@@ -54,7 +54,7 @@ Far(s, tr, i) ==
 
 Verdict(r) ==
   LET o == [tool |-> r.o.tool, bak |-> r.o.bak, stale |-> r.o.stale, outx |-> r.o.outx,
-            json |-> r.o.json, changed |-> r.o.changed]
+            json |-> r.o.json, changed |-> r.o.changed, link |-> r.o.link]
       fin == IF o \in AllOpts THEN Fin(SInit(o), r.tr, 1) ELSE {}
       why == IF fin = {} THEN "no-behaviour"
              ELSE IF \A f \in fin : f.code # r.code THEN "status"
